@@ -68,11 +68,11 @@ fn run_case(c: &Case, acc: &mut Acc) -> Vec<String> {
                     problems.push(format!("begin failed: {}", b.short()));
                 } else {
                     let reqs = sc.sim.w.borrow().t.reqs[r0..].to_vec();
-                    let want = expect_reservation(table, &cfg, &c.token);
-                    if reqs.len() != 1 || reqs[0].val.as_ref() != Some(&want) {
+                    let diff = named_fields_differ(table, "Reservation", reqs.first(), &want_reservation(&cfg, &c.token));
+                    if reqs.len() != 1 || !diff.is_empty() {
                         problems.push(format!(
-                            "the reservation must be requested for the configured amount and currency with the token as reference: expected {} got [{}]",
-                            show_req(table, "Reservation", &Some(want)),
+                            "the reservation must be requested for the configured amount and currency with the token as reference: {}; got [{}]",
+                            diff.join("; "),
                             reqs.iter().map(|r| show_req(table, &r.key, &r.val)).collect::<Vec<_>>().join("; ")
                         ));
                     }
@@ -81,15 +81,17 @@ fn run_case(c: &Case, acc: &mut Acc) -> Vec<String> {
                     let reqs = sc.sim.w.borrow().t.reqs[r1..].to_vec();
                     let want = expect_partial_reversal(table, &cfg, &c.token, c.receipt, c.fin);
                     let main: Vec<&ReqRec> = reqs.iter().filter(|r| r.key == "PartialReversal").take(1).collect();
-                    if main.len() != 1 || main[0].val.as_ref() != Some(&want) {
+                    let diff = named_fields_differ(table, "PartialReversal", main.first().copied(), &want_partial_reversal(&cfg, &c.token, c.receipt, c.fin));
+                    if !diff.is_empty() {
                         problems.push(format!(
-                            "commit of {} against a pre-authorisation of {}: expected the release of exactly {} in currency {} against receipt {} and token {:?}:\n    expected {}\n    got      [{}]",
+                            "commit of {} against a pre-authorisation of {}: expected the release of exactly {} in currency {} against receipt {} and token {:?}: {}\n    model    {}\n    got      [{}]",
                             c.fin,
                             c.pre,
                             c.pre.saturating_sub(c.fin),
                             c.currency,
                             c.receipt,
                             c.token,
+                            diff.join("; "),
                             show_req(table, "PartialReversal", &Some(want)),
                             reqs.iter().map(|r| show_req(table, &r.key, &r.val)).collect::<Vec<_>>().join("; ")
                         ));
